@@ -135,6 +135,18 @@ def must(res: Result, label: str, fn: Callable, *a, **k):
         return None
 
 
+
+def safe_grad(res: Result, label: str, out, inputs, retain_graph: bool = True):
+    """torch.autograd.grad(out, inputs, allow_unused=True) where a failure of the backward pass is a
+    discrepancy (bucketed like must), not a harness error: autograd errors surface in C++ frames,
+    so their traceback never passes through plinio although the graph was built there.  Returns a
+    tuple of None on failure, so that the caller's per-gradient checks simply see no gradient."""
+    import torch
+    inputs = list(inputs)
+    r = must(res, label, torch.autograd.grad, out, inputs, allow_unused=True,
+             retain_graph=retain_graph)
+    return tuple([None] * len(inputs)) if r is None else r
+
 # --------------------------------------------------------------------------------------
 # parts and known findings
 # --------------------------------------------------------------------------------------
